@@ -188,6 +188,10 @@ def check(rep, ctx):
             t_ = fq[-1][0] if fq else None
             if t_ is not None and count_only(t_) is not None and contains(count_only(t_), ("X",)):
                 continue  # the count-only rule above reports it
+            maxw_c = ("unpack", ">q", cn0.term(wire_of["max_timestamp"]), 0)
+            attw_c = ("unpack", ">h", cn0.term(wire_of["attributes"]), 0)
+            if t_ is not None and contains(t_, maxw_c) and any(contains(f_[0], attw_c) and contains(f_[0], ("k", 8)) for f_ in fq):
+                continue  # CreateTime batches only: maxTimestamp is by definition the largest record timestamp
             rep.check(R_A, False, construct=fn.ref, stmt=stmt_at(ctx, site_) or site_,
                       message=f"a batch whose magic and checksum are right is rejected ({getattr(q.value.cls, 'name', None) or q.value.cls.ref} at "
                               f"{site_}) on {show_term(t_)[:160] if t_ is not None else '?'}: the format does not constrain the header this way "
